@@ -422,22 +422,16 @@ func vmSameSet(got []string, want []string) bool {
 	return true
 }
 
-// check compares the observable state of the store with the model.
+// vmInternals, when set (whitebox.go), additionally compares the store's
+// internal bookkeeping (reserved size, LRU queue, per-blob flags) with the
+// model. The API-level harness does not depend on it.
+var vmInternals func(h *vmH)
+
+// check compares the observable state of the store with the model: listing per
+// scope and presence per key through the public API, plus the internals when
+// the white-box file is loaded.
 func (h *vmH) check() {
 	m := h.m
-	impl := h.s.impl
-	// Reserved space is the sum of live sizes and never exceeds capacity.
-	verif.Assert("reserved-is-sum-of-live-sizes", impl.size == m.reserved)
-	verif.Assert("reserved-within-capacity", impl.size <= impl.capacity)
-	// LRU order.
-	order := vmEvictionOrder(impl)
-	verif.Assert("lru-length", len(order) == len(m.lru))
-	if len(order) == len(m.lru) {
-		for i, k := range m.lru {
-			verif.Assert("lru-order", order[i] == vmKeys[k])
-		}
-	}
-	// Listing per scope.
 	for sc := 0; sc < 3; sc++ {
 		scope := vmScopeOf(sc)
 		want := []string{}
@@ -448,17 +442,12 @@ func (h *vmH) check() {
 		}
 		verif.Assert("list-per-scope", vmSameSet(h.view(scope).List(), want))
 	}
-	// Per-blob bookkeeping.
 	for k := 0; k < h.nkeys; k++ {
-		b, ok := impl.blobs[vmKeys[k]]
-		mb := &m.blobs[k]
-		verif.Assert("blob-present", ok == mb.present)
-		if ok && mb.present {
-			verif.Assert("blob-size", b.size == mb.size)
-			verif.Assert("blob-complete", b.complete == mb.complete)
-			verif.Assert("blob-banned", b.evictionBanned == mb.banned)
-			verif.Assert("blob-queued-iff-complete-unbanned", (b.node != nil) == (mb.complete && !mb.banned))
-		}
+		in, _ := h.s.Has(vmKeys[k])
+		verif.Assert("has-iff-present", in == m.blobs[k].present)
+	}
+	if vmInternals != nil {
+		vmInternals(h)
 	}
 }
 
@@ -480,14 +469,4 @@ func (h *vmH) checkAllMd() {
 			}
 		}
 	}
-}
-
-func vmEvictionOrder(s *store) []string {
-	s.mu.RLock()
-	defer s.mu.RUnlock()
-	res := make([]string, 0)
-	for e := s.evictQueue.Front(); e != nil; e = e.Next() {
-		res = append(res, e.Value.(string))
-	}
-	return res
 }
